@@ -566,7 +566,16 @@ func runC04R6(c *eng.Ctx, r *eng.RuleCtx) {
 		if !isR || len(ret.Results) != 1 {
 			return true
 		}
-		o := eng.SelObj(info, ret.Results[0])
+		res := ret.Results[0]
+		// `return min(delay, maxDelay)`: the cap is applied in the return
+		if mc := builtinCall(info, res, "min"); mc != nil && len(mc.Args) == 2 {
+			if eng.SelObj(info, mc.Args[0]) == max {
+				res = mc.Args[1]
+			} else if eng.SelObj(info, mc.Args[1]) == max {
+				res = mc.Args[0]
+			}
+		}
+		o := eng.SelObj(info, res)
 		if o == init || o == max {
 			return true
 		}
